@@ -133,3 +133,21 @@ package reg
 //@   in ~/scheme/reg
 //@   infunc \)\.referrer(Put|Delete)$
 //@   requires fallback-tag-lock-held: $held(Reg.muRefTag)
+
+// ---- C06: the manifest cache cannot outlive a delete ----
+// Every access to reg.cacheMan (lookup in ManifestGet / ManifestHead, store after a fetch or a
+// push, eviction in ManifestDelete) uses the SAME form of key: the reference with the digest and
+// no tag. An eviction under any other key form would leave a deleted manifest readable through
+// the cache.
+//@ callsite (*~/internal/cache.Cache[k, v]).{Get,Delete}(key)
+//@   prop C06
+//@   name cacheMan.access
+//@   in ~/scheme/reg
+//@   where manifest-cache: recv == caller.reg.cacheMan
+//@   requires key-is-digest-only-ref: key.Tag == "" && key.Digest != ""
+//@ callsite (*~/internal/cache.Cache[k, v]).Set(key, val)
+//@   prop C06
+//@   name cacheMan.Set
+//@   in ~/scheme/reg
+//@   where manifest-cache: recv == caller.reg.cacheMan
+//@   requires key-is-digest-only-ref: key.Tag == ""
